@@ -72,6 +72,10 @@ def ecdsa_blob(curve='nistp256', qlen=65):
     return sstr('ecdsa-sha2-' + curve) + sstr(curve) + sstr(b'\x04' + b'\x07' * (qlen - 1))
 
 
+def dss_blob(bits=1024):
+    return sstr('ssh-dss') + mpint((1 << (bits - 1)) | 0x65) + mpint((1 << 159) | 1) + mpint(2) + mpint((1 << (bits - 2)) | 3)
+
+
 def cert_blob(kind, host_pub_fields, ca_blob, key_id=b'host', principals=b'', crit=b'', ext=b'', cert_type=2, serial=1):
     """OpenSSH certificate (PROTOCOL.certkeys): kind e.g. 'ssh-rsa-cert-v01@openssh.com'.
     host_pub_fields: the public-key fields of the certified key (already encoded)."""
